@@ -587,8 +587,8 @@ func main() {
 		Setup:       func(c *engine.Ctx) { elkrun.Init() },
 		Run:         run,
 		CaseTimeout: 300 * time.Second,
-		// the budget is CPU-bound (≈ 10 CPU-minutes quick); on a heavily shared machine finishing matters more than the wall clock
-		QuickDeadline:    25 * time.Minute,
+		// the quick tier is ≈ 3.5 CPU-minutes (well under a minute on 16 idle cores); the deadline leaves room for a shared machine
+		QuickDeadline:    12 * time.Minute,
 		ThoroughDeadline: 90 * time.Minute,
 	})
 }
